@@ -177,8 +177,8 @@ F2_BIG = "lshape 4 2 2 tr -1 -1 -1"
 def build_cases(cx):
     rng = random.Random(cx.seed * 7919 + 16)
     cases = []   # (id, line, kind, info)
-    nh, nm, nk = cx.pick((60, 8, 10), (3000, 200, 150))
-    nmb, ncv = cx.pick((8, 30), (100, 1000))
+    nh, nm, nk = cx.pick((60, 8, 10), (2000, 150, 100))
+    nmb, ncv = cx.pick((8, 30), (60, 600))
 
     def add(line, kind, info=None):
         cid = str(len(cases))
